@@ -116,6 +116,33 @@ def record_sessions(rnd, nsessions, maxlen, root):
             seq = 0
             events.append({'tid': tid, 'seq': seq, 'ev': 'Init', 'refs': sess.abstract_refs()})
             pending_recheck = None
+            if tid % 4 == 3:
+                # a focused history on one reference, all within a moment: check, regenerate with other content (of the
+                # same size where the pool has one), check the new content (passes), check the old one (fails)
+                sess.ageing = False
+                ty = rnd.choice(['string', 'textfile', 'binary', 'dataframe', 'ondisk'])
+                paths = [p for p, t in ptypes.items() if t == ty]
+                npool = len(sess.pools[ty])
+                a_ = rnd.randrange(npool)
+                same = [j for j in range(npool) if j != a_ and ty == 'binary' and len(sess.pools[ty][j][0]) == len(sess.pools[ty][a_][0])]
+                b_ = rnd.choice(same) if same else rnd.choice([j for j in range(npool) if j != a_])
+                def step_(name, **kw_):
+                    nonlocal seq
+                    seq += 1
+                    events.append(dict({'tid': tid, 'seq': seq, 'ev': name}, **kw_))
+                def assert_(cid):
+                    out_, wrote_, detail_ = sess.do_assert(ty, 'NoKind', paths, ['c%d' % cid])
+                    step_('Assert', type=ty, kind='NoKind', paths=paths, actual=['c%d' % cid], outcome=out_, wrote=wrote_,
+                          refs=sess.abstract_refs(), detail=detail_, options=[])
+                assert_(a_)
+                sess.set_regeneration('NoKind', True)
+                step_('SetRegeneration', kind='NoKind', flag=True)
+                assert_(b_)
+                sess.set_regeneration('NoKind', False)
+                step_('SetRegeneration', kind='NoKind', flag=False)
+                assert_(b_)
+                assert_(a_)
+                continue
             for _ in range(rnd.randint(3, maxlen)):
                 seq += 1
                 if pending_recheck and rnd.random() < 0.7:
